@@ -168,8 +168,11 @@ RAssert == <<StA("p1", "r", "p2", "r", "r_mismatch")>>      \* assert self.panel
 SReb(k) ==   \* stiffener._rebuild
     CASE k = "BayB1"  -> RAssert \o S1W                                                          \* bladestiff1d.py:62-113
       [] k = "BayB1b" -> RAssert \o S1W \o BaseReset \o <<StW("s", "base")>>                       \* :78-100 a NEW base Panel every time
-      [] k = "BayB2"  -> RAssert \o <<StD("flange", "lam"), StW("s", "dpb"), StD("base", "lam")>>      \* bladestiff2d.py:80-96
-      [] k = "BayT2"  -> RAssert \o <<StD("flange", "lam"), StW("s", "dpb"), StD("base", "lam")>>      \* tstiff2d.py:89-118
+      [] k = "BayB2"  -> RAssert \o <<StR("flange", "plyts"), StR("flange", "laminaprops"), StD("flange", "lam"),
+                                       StW("s", "dpb"), StD("base", "lam")>>          \* bladestiff2d.py:80-96
+      [] k = "BayT2"  -> RAssert \o <<StR("flange", "plyts"), StR("flange", "laminaprops"), StD("flange", "lam"),
+                                       StW("s", "dpb"), StR("base", "plyts"), StR("base", "laminaprops"),
+                                       StD("base", "lam")>>                            \* tstiff2d.py:89-118
       [] OTHER -> <<>>
 BReb(k) == PRebuild("p1") \o <<StL("", "model")>> \o PRebuild("p2") \o <<StP("", "model")>> \o SReb(k)   \* :157-178
 StiffSizes(k) == CASE k = "BayB2" -> PGetSize("flange")
@@ -473,7 +476,8 @@ Idempotent ==
     \A m \in Methods(kind) :
         LET s1 == Exec(kind, m, derived, ckey)
             s2 == Exec(kind, m, s1.d, s1.k)
-        IN s2.d = s1.d /\ s2.k = s1.k /\ s2.out = s1.out /\ s2.attr = s1.attr
+        IN \/ s2.d = s1.d /\ s2.k = s1.k /\ s2.out = s1.out /\ s2.attr = s1.attr
+           \/ s2.out # "ok" /\ Explains(kind, m, s2, Deviations) # {}      \* a listed finding breaks the repetition
 (* every failure signature of the tables is consistent with the scripts: the attribute is read *)
 TablesConsistent ==
     \A f \in FailTable : \E k \in AllKinds : Class(k) = f.cls /\ (f.m = "*" \/ f.m \in Methods(k))
